@@ -258,6 +258,35 @@ def check(case, rec=None):
                         fails.append(fail("pk2d", "pk2d spot3d_id is not the merged label", col="spot3d_id"))
                 else:
                     fails.append(exc_failure("pk2d", d))
+                # the table written to a file and read back (what the later steps of the workflow start from), with a
+                # bright peak in it: moments of the order of 3e9 (above 2^31, below 2^32)
+                if not fails and n >= 1:
+                    import os
+                    tb = properties.pks_table()
+                    tb.ipk = np.array([0, n])
+                    tb.npk = np.array([[n, len(ei), 0]])
+                    tb.pk_props = pk.copy()
+                    kb = int(case["seed"] % n)
+                    tb.pk_props[1, kb] = 2000000
+                    tb.pk_props[2, kb] = 2000000 * 1500 + (case["seed"] % 7)
+                    tb.pk_props[3, kb] = 2000000 * 1100
+                    tb.glabel, tb.nlabel = np.asarray(lab).copy(), nl
+                    fn_ = os.path.join(os.environ.get("VERIF_TMP", "."), "c15_tab_%d.h5" % os.getpid())
+                    if os.path.exists(fn_):
+                        os.remove(fn_)
+                    ok, e_ = guard(tb.save, fn_)
+                    if ok:
+                        ok, tl = guard(properties.pks_table.load, fn_)
+                    if os.path.exists(fn_):
+                        os.remove(fn_)
+                    if not ok:
+                        fails.append(exc_failure("pks_table.save / load", e_ if not isinstance(e_, type(None)) else tl))
+                    elif not (np.array_equal(np.asarray(tl.pk_props), tb.pk_props) and
+                              np.array_equal(np.asarray(tl.glabel), tb.glabel) and int(tl.nlabel) == int(nl)):
+                        bad = np.argwhere(np.asarray(tl.pk_props) != tb.pk_props)
+                        fails.append(fail("pk2d", "peak table saved and loaded: %d entries differ, e.g. %s written, %s read"
+                                          % (len(bad), tb.pk_props[tuple(bad[0])] if len(bad) else None,
+                                             np.asarray(tl.pk_props)[tuple(bad[0])] if len(bad) else None), col="file"))
     finally:
         numba.set_num_threads(min(4, maxthreads))
     if rec is not None:
@@ -282,6 +311,7 @@ def check(case, rec=None):
 # ------------------------------------------------------------------ files on disk -> properties.main -> merged peaks
 
 KERNEL = np.array([[1, 2, 1], [2, 4, 2], [1, 2, 1]])
+MON = {}
 
 
 @st.composite
@@ -366,6 +396,7 @@ def check_pipe(case, rec=None):
                 g["row"] = np.concatenate(rows).astype(np.uint16)
                 g["col"] = np.concatenate(cols).astype(np.uint16)
                 g["intensity"] = np.concatenate(vals).astype(np.float32)
+                g["measurement/fpico6"] = 5e4 * (1.0 + 0.3 * np.sin(np.arange(nframes) + k))      # a beam monitor
                 g["measurement/rot_center"] = omega[k].astype(float)
                 g["measurement/dty"] = np.full(nframes, float(dty[k]))
                 g["instrument/positioners/dty"] = float(dty[k])
@@ -380,12 +411,35 @@ def check_pipe(case, rec=None):
             properties.main(ds.dsfile, options={"nproc": case["nproc"]})
             ds = dsmod.load(ds.dsfile)
             tbl = ds.peaks_table
-            return ds, tbl, tbl.pk2d(ds.omega, ds.dty), tbl.pk2dmerge(ds.omega, ds.dty)
+            out_ = (ds, tbl, tbl.pk2d(ds.omega, ds.dty), tbl.pk2dmerge(ds.omega, ds.dty))
+            # intensities normalised to the beam monitor, the reference value set twice on the same object
+            import warnings
+            with warnings.catch_warnings():
+                warnings.simplefilter("ignore")
+                raw4 = np.array(ds.pk4d["sum_intensity"], float)
+                ds.set_monitor("fpico6")
+                ref1 = float(ds.monitor_ref)
+                a4 = np.array(ds.pk4d["sum_intensity"], float)
+                a2 = np.array(ds.pk2d["sum_intensity"], float)
+                ds.set_monitor("fpico6", ref_value_func=lambda x: 1e5)
+                b4 = np.array(ds.pk4d["sum_intensity"], float)
+                b2 = np.array(ds.pk2d["sum_intensity"], float)
+            MON.clear()
+            MON.update(raw4=raw4, ref1=ref1, a4=a4, a2=a2, b4=b4, b2=b2)
+            return out_
         with contextlib.redirect_stdout(io.StringIO()), contextlib.redirect_stderr(io.StringIO()):
             ok, res = guard(run)
         if not ok:
             return [exc_failure("sinograms.properties.main / peaks_table", res)]
         ds, tbl, p2, p4 = res
+        if MON:
+            r_ = 1e5 / MON["ref1"]
+            if not (np.allclose(MON["b4"], MON["a4"] * r_, rtol=1e-9) and np.allclose(MON["b2"], MON["a2"] * r_, rtol=1e-9)
+                    and not np.allclose(MON["a4"], MON["raw4"], rtol=1e-3)):
+                fails.append(fail("pipeline", "set_monitor('fpico6') then set_monitor('fpico6', lambda x: 1e5) on one DataSet: "
+                                  "merged intensities scale by %.6g (2-D peaks by %.6g), the reference changed by %.6g" %
+                                  (float(np.median(MON["b4"] / MON["a4"])), float(np.median(MON["b2"] / MON["a2"])), r_),
+                                  what="monitor"))
         glabel = np.asarray(tbl.glabel)
         frm = np.asarray(tbl.pk_props[4])
         if len(glabel) != len(blobs):
